@@ -261,12 +261,16 @@ def fake_aio_channel(handler):
             r = handler(self.kind, self.path, raw, tuple(metadata or ()), self.deser, timeout)
 
             async def coro():
+                completed.append((self.kind, self.path))       # the call object was awaited (the reply / status reached the caller)
                 return r
             return coro()
+
+    completed = []
 
     class AChan(grpc.aio.Channel):
         def __init__(self):
             self._unary_unary_interceptors = []
+            self.completed = completed
 
         def unary_unary(self, path, request_serializer=None, response_deserializer=None, *a, **kw):
             return AMulti("unary_unary", path, request_serializer, response_deserializer)
